@@ -121,6 +121,8 @@ class Explorer:
                                         'fpy2.analysis.format_infer', 'fpy2.number.engine'])
         # stand-in classes for external objects (Python ast nodes) live in spec modules; searched last
         self.types.default_modules += [m for m in ('spec.c06', 'spec.c07', 'spec.c19x', 'spec.c02x') if index.module(m) is not None]
+        # searched last: private classes of the format analysis (`_FormatInferInstance`) and the stand-in `DefUseM` of spec/c14x_refine.py as Lemma parameter types
+        self.types.default_modules += [m for m in ('fpy2.analysis.format_infer.analysis', 'spec.c14x_refine') if index.module(m) is not None]
         self.intrinsics = Intrinsics(self)
         self.global_cache = {}
         self.tags = Tags()
@@ -262,6 +264,10 @@ class Explorer:
             # helper contracts written next to the contract being verified come first
             here = self.current.ci.module.name
             cands = [c for c in cands if c.ci.module.name == here] + [c for c in cands if c.ci.module.name != here]
+            # c14x: a contract excluded BY NAME (`no_use` / not in `use`) is skipped here, so that the next contract of
+            # the same target is tried instead of inlining (exclusion by target name still means: inline)
+            cur = self.current
+            cands = [c for c in cands if c.name not in cur.no_use and (cur.use is None or c.name in cur.use or c.short in cur.use)]
         for c in cands:
             ok = True
             for p_, tstr in c.params.items():
